@@ -427,6 +427,8 @@ func (c *suComp) Run(args []string) string {
 		return "bad-op"
 	}
 	switch args[0] {
+	case "rwalk":
+		return suRaceWalk() // su_rwalk.go
 	case "new":
 		for _, s := range c.subs {
 			s.cancel()
